@@ -519,8 +519,17 @@ def r09_3(rep, M, rid):
     zero = [t for t in ast.walk(fn) if isinstance(t, ast.If) and isinstance(t.test, ast.Compare)
             and isinstance(t.test.ops[0], ast.Gt) and isinstance(t.test.comparators[0], ast.Constant) and t.test.comparators[0].value == 0
             and any(isinstance(s, ast.Assign) and isinstance(s.value, ast.Constant) and s.value.value == 0 for s in t.orelse)]
+    # ... or no separate branch at all: with no periodic direction the repeats are [1, 1, 1], the "doubled" system is the system itself, a connected
+    # system has one component there, and n_pbc - log2(1) = 0 comes out of the general formula
+    guards = [t for t in ast.walk(fn) if isinstance(t, ast.If)
+              and any(isinstance(c, ast.Call) and norm(c.func).endswith("log") for b2 in t.body for c in ast.walk(b2))]
+    general = guards and all(isinstance(t.test, ast.Compare) and "pbc" in norm(t.test) and isinstance(t.test.ops[0], ast.GtE)
+                             and isinstance(t.test.comparators[0], ast.Constant) and t.test.comparators[0].value == 0 for t in guards)
+    formula_unguarded = not guards
     if zero:
         rep.ok(rid, "0 without periodic directions")
+    elif general or formula_unguarded:
+        rep.ok(rid, "0 without periodic directions: the general formula n_pbc - log2(#components of the unrepeated system) is used for n_pbc = 0 as well")
     else:
         rep.violation(rid, "get_dimensionality: non-periodic branch", "a connected non-periodic system does not get 0", M.where(FQ))
 
